@@ -8,7 +8,7 @@
 //!   c19 replay  <load|migrate|store> ...                  re-run one input
 //!   c19 worker  <cases> <start>                           (internal) implementation side of the cases file
 //! Case file format (shared with ocaml/c19): see `emit_*` below.
-use chewing::dictionary::{Dictionary, Phrase, Trie, UserDictionaryLoader};
+use chewing::dictionary::{Dictionary, DictionaryMut, Phrase, Trie, UserDictionaryLoader};
 use chewing::zhuyin::Syllable;
 use std::collections::BTreeMap;
 use std::fmt::Write as _;
@@ -359,6 +359,7 @@ fn run_case(line: &str, bases: &mut BTreeMap<String, Vec<u8>>) -> Option<String>
             b[off] = t[4].parse().unwrap();
             Some(format!("MC {} {}", t[1], migrate_line(&b)))
         }
+        "S" => Some(format!("S {} {}", t[1], sqlite_v1_line(&t))),
         "P" => {
             // the harness-side writer
             let kind = t[2];
@@ -719,6 +720,551 @@ fn corrupt(tier: &str, out_json: &str) -> i32 {
     if mismatches.is_empty() && panics.is_empty() && hangs.is_empty() && aborts.is_empty() { 0 } else { 1 }
 }
 
+// ------------------------------------------------------------------ legacy SQLite stores (written with rusqlite, independent of the implementation)
+
+const V1_DDL: &str = "CREATE TABLE userphrase_v1 (time INTEGER,user_freq INTEGER,max_freq INTEGER,orig_freq INTEGER,length INTEGER,phone_0 INTEGER,phone_1 INTEGER,phone_2 INTEGER,phone_3 INTEGER,phone_4 INTEGER,phone_5 INTEGER,phone_6 INTEGER,phone_7 INTEGER,phone_8 INTEGER,phone_9 INTEGER,phone_10 INTEGER,phrase TEXT,PRIMARY KEY (phone_0,phone_1,phone_2,phone_3,phone_4,phone_5,phone_6,phone_7,phone_8,phone_9,phone_10,phrase));
+CREATE TABLE config_v1 (id INTEGER,value INTEGER,PRIMARY KEY (id));";
+
+const V2_DDL: &str = "CREATE TABLE dictionary_v1 (syllables BLOB NOT NULL, phrase TEXT NOT NULL, freq INTEGER NOT NULL, sort_id INTEGER, userphrase_id INTEGER, PRIMARY KEY (syllables, phrase)) WITHOUT ROWID;
+CREATE TABLE userphrase_v2 (id INTEGER PRIMARY KEY, user_freq INTEGER, time INTEGER);
+CREATE TABLE migration_v1 (name TEXT PRIMARY KEY) WITHOUT ROWID;
+CREATE TABLE info_v1 (key TEXT PRIMARY KEY, value TEXT NOT NULL) WITHOUT ROWID;
+INSERT INTO migration_v1 (name) VALUES ('migrate_from_userphrase_v1');
+PRAGMA application_id = 1128809815;";
+
+/// the older schema (libchewing 0.4/0.5): one row per phrase, eleven phone columns
+pub fn write_sqlite_v1(path: &Path, lifetime: i64, recs: &[LRec]) {
+    let conn = rusqlite::Connection::open(path).expect("create sqlite");
+    conn.execute_batch(V1_DDL).expect("v1 ddl");
+    conn.execute("INSERT INTO config_v1 VALUES (0, ?1)", [lifetime]).expect("config");
+    for r in recs {
+        let mut v: Vec<rusqlite::types::Value> = vec![
+            (r.time as i64).into(),
+            (r.user as i64).into(),
+            (r.max as i64).into(),
+            (r.orig as i64).into(),
+            (r.syls.len() as i64).into(),
+        ];
+        for i in 0..11 {
+            v.push((r.syls.get(i).copied().unwrap_or(0) as i64).into());
+        }
+        v.push(r.phrase.clone().into());
+        conn.execute(
+            "INSERT INTO userphrase_v1 VALUES (?1,?2,?3,?4,?5,?6,?7,?8,?9,?10,?11,?12,?13,?14,?15,?16,?17)",
+            rusqlite::params_from_iter(v),
+        )
+        .expect("insert v1");
+    }
+    conn.close().expect("close");
+}
+
+/// the schema of the SQLite back end (dictionary_v1 + userphrase_v2); every third row has no user row
+pub fn write_sqlite_v2(path: &Path, recs: &[LRec]) {
+    let conn = rusqlite::Connection::open(path).expect("create sqlite");
+    conn.execute_batch(V2_DDL).expect("v2 ddl");
+    for (i, r) in recs.iter().enumerate() {
+        let blob: Vec<u8> = r.syls.iter().flat_map(|s| s.to_le_bytes()).collect();
+        if i % 3 == 2 {
+            conn.execute(
+                "INSERT INTO dictionary_v1 (syllables, phrase, freq) VALUES (?1, ?2, ?3)",
+                rusqlite::params![blob, r.phrase, r.user as i64],
+            )
+            .expect("insert dict");
+        } else {
+            conn.execute("INSERT INTO userphrase_v2 (id, user_freq, time) VALUES (?1, ?2, ?3)", rusqlite::params![(i + 1) as i64, r.user as i64, r.time as i64])
+                .expect("insert user");
+            conn.execute(
+                "INSERT INTO dictionary_v1 (syllables, phrase, freq, userphrase_id) VALUES (?1, ?2, ?3, ?4)",
+                rusqlite::params![blob, r.phrase, r.orig as i64, (i + 1) as i64],
+            )
+            .expect("insert dict");
+        }
+    }
+    conn.close().expect("close");
+}
+
+/// the legacy rows of a SQLite store, as sorted text lines
+fn sqlite_legacy_rows(path: &Path) -> Vec<String> {
+    let conn = match rusqlite::Connection::open_with_flags(path, rusqlite::OpenFlags::SQLITE_OPEN_READ_ONLY) {
+        Ok(c) => c,
+        Err(e) => return vec![format!("open error {e}")],
+    };
+    let mut out = vec![];
+    let has = |t: &str| -> bool {
+        conn.query_row("SELECT EXISTS (SELECT 1 FROM sqlite_master WHERE type='table' AND name=?1)", [t], |r| r.get::<_, bool>(0)).unwrap_or(false)
+    };
+    let mut dump = |sql: &str, tag: &str| {
+        if let Ok(mut st) = conn.prepare(sql) {
+            let n = st.column_count();
+            let rows = st.query_map([], |row| {
+                let mut s = String::from(tag);
+                for i in 0..n {
+                    let v: rusqlite::types::Value = row.get(i)?;
+                    let _ = write!(s, "|{:?}", v);
+                }
+                Ok(s)
+            });
+            if let Ok(rows) = rows {
+                for r in rows.flatten() {
+                    out.push(r);
+                }
+            }
+        }
+    };
+    if has("userphrase_v1") {
+        dump("SELECT time,user_freq,max_freq,orig_freq,length,phone_0,phone_1,phone_2,phone_3,phone_4,phone_5,phone_6,phone_7,phone_8,phone_9,phone_10,phrase FROM userphrase_v1", "v1");
+    } else {
+        dump("SELECT hex(syllables),phrase,freq,userphrase_id FROM dictionary_v1", "d");
+        dump("SELECT id,user_freq,time FROM userphrase_v2", "u");
+    }
+    out.sort();
+    out
+}
+
+/// S <id> <n> {time user max orig len p0..p10 hexphrase}: open a v1 store with SqliteDictionary::open, list entries
+fn sqlite_v1_line(t: &[&str]) -> String {
+    let n: usize = t[2].parse().unwrap();
+    let mut recs = vec![];
+    let mut i = 3;
+    for _ in 0..n {
+        let time: i32 = t[i].parse().unwrap();
+        let user: i32 = t[i + 1].parse().unwrap();
+        let max: i32 = t[i + 2].parse().unwrap();
+        let orig: i32 = t[i + 3].parse().unwrap();
+        let len: usize = t[i + 4].parse().unwrap();
+        let phones: Vec<u16> = (0..11).map(|k| t[i + 5 + k].parse().unwrap()).collect();
+        let phrase = String::from_utf8(unhex(t[i + 16])).unwrap();
+        i += 17;
+        recs.push((LRec { phrase, syls: vec![], user, time, max, orig, deleted: false }, len, phones));
+    }
+    let dir = scratch_dir();
+    let path = dir.join("chewing.sqlite3");
+    {
+        let conn = rusqlite::Connection::open(&path).expect("create sqlite");
+        conn.execute_batch(V1_DDL).expect("v1 ddl");
+        for (r, len, phones) in &recs {
+            let mut v: Vec<rusqlite::types::Value> =
+                vec![(r.time as i64).into(), (r.user as i64).into(), (r.max as i64).into(), (r.orig as i64).into(), (*len as i64).into()];
+            for p in phones {
+                v.push((*p as i64).into());
+            }
+            v.push(r.phrase.clone().into());
+            let _ = conn.execute(
+                "INSERT OR REPLACE INTO userphrase_v1 VALUES (?1,?2,?3,?4,?5,?6,?7,?8,?9,?10,?11,?12,?13,?14,?15,?16,?17)",
+                rusqlite::params_from_iter(v),
+            );
+        }
+        conn.close().expect("close");
+    }
+    let p2 = path.clone();
+    let r = catch(move || chewing::dictionary::SqliteDictionary::open(&p2).map(|d| dict_entries(&d)));
+    let s = match r {
+        Err(_) => "panic".to_string(),
+        Ok(Err(_)) => "err".to_string(),
+        Ok(Ok(v)) => fmt_entries(&v),
+    };
+    let _ = std::fs::remove_dir_all(&dir);
+    s
+}
+
+// ------------------------------------------------------------------ property oracles on the implementation
+
+#[derive(Clone, Copy, Debug, PartialEq)]
+enum Format {
+    Bin,
+    Text,
+    SqliteV1,
+    SqliteV2,
+}
+
+const FORMATS: [Format; 4] = [Format::Bin, Format::Text, Format::SqliteV1, Format::SqliteV2];
+
+struct Store {
+    fmt: Format,
+    lifetime: i64,
+    recs: Vec<LRec>,
+    learn: Vec<Vec<(Vec<u16>, String, u32)>>,
+    via_capi: bool,
+}
+
+fn composable_only(recs: &mut [LRec], rng: &mut Rng) {
+    for r in recs.iter_mut() {
+        for s in r.syls.iter_mut() {
+            loop {
+                let v = ((rng.below(22) << 9) | (rng.below(4) << 7) | (rng.below(14) << 3) | rng.below(6)) as u16;
+                if v != 0 {
+                    *s = v;
+                    break;
+                }
+            }
+        }
+    }
+}
+
+fn gen_history(tier: &str, index: usize) -> Store {
+    let seed = seed_from_env();
+    let mut rng = Rng::new(seed.wrapping_mul(6364136223846793005).wrapping_add(0xc19).wrapping_add(index as u64));
+    let fmt = FORMATS[index % 4];
+    let big = if tier == "thorough" { 2000 } else { 50 };
+    let max = if index % 16 >= 12 { big } else { 10 };
+    let via_capi = index % 5 == 4;
+    let mut recs = gen_store(&mut rng, max, fmt == Format::Bin);
+    if via_capi || rng.chance(1, 2) {
+        composable_only(&mut recs, &mut rng);
+        // keys must stay distinct
+        let mut seen = std::collections::BTreeSet::new();
+        recs.retain(|r| seen.insert((r.syls.clone(), r.phrase.clone())));
+    }
+    let lifetime = gen_lifetime(&mut rng);
+    let sessions = rng.range(1, 3) as usize;
+    let mut learn = vec![];
+    for _ in 0..sessions {
+        let mut l = vec![];
+        for _ in 0..rng.below(4) {
+            if !recs.is_empty() && rng.chance(1, 3) && !via_capi {
+                // relearn a migrated phrase with a higher frequency
+                let r = &recs[rng.below(recs.len() as u64) as usize];
+                if !r.dead() {
+                    l.push((r.syls.clone(), r.phrase.clone(), (r.user as u32).saturating_add(1 + rng.below(50) as u32)));
+                    continue;
+                }
+            }
+            let len = rng.range(1, 4) as usize;
+            let mut r = vec![gen_rec(&mut rng, len, false)];
+            composable_only(&mut r, &mut rng);
+            l.push((r[0].syls.clone(), r[0].phrase.clone(), 1 + rng.below(5000) as u32));
+        }
+        learn.push(l);
+    }
+    Store { fmt, lifetime, recs, learn, via_capi }
+}
+
+fn write_store(dir: &Path, st: &Store) {
+    match st.fmt {
+        Format::Bin => std::fs::write(dir.join("uhash.dat"), write_bin(st.lifetime as i32, &st.recs)).unwrap(),
+        Format::Text => std::fs::write(dir.join("uhash.dat"), write_text(st.lifetime, &st.recs)).unwrap(),
+        Format::SqliteV1 => write_sqlite_v1(&dir.join("chewing.sqlite3"), st.lifetime, &st.recs),
+        Format::SqliteV2 => write_sqlite_v2(&dir.join("chewing.sqlite3"), &st.recs),
+    }
+}
+
+fn legacy_snapshot(dir: &Path, fmt: Format) -> Vec<String> {
+    match fmt {
+        Format::Bin | Format::Text => vec![hex(&std::fs::read(dir.join("uhash.dat")).unwrap_or_default())],
+        _ => sqlite_legacy_rows(&dir.join("chewing.sqlite3")),
+    }
+}
+
+fn expected_entries(st: &Store) -> BTreeMap<Key, u32> {
+    let mut m = BTreeMap::new();
+    for (i, r) in st.recs.iter().enumerate() {
+        if r.dead() {
+            continue;
+        }
+        let _ = i;
+        m.insert((r.syls.clone(), r.phrase.as_bytes().to_vec()), r.user as u32);
+    }
+    m
+}
+
+/// wait until the background writer has replaced chewing.dat with a file of n entries (C10 owns the race)
+fn wait_for_file(path: &Path, n: usize) -> bool {
+    let t0 = Instant::now();
+    loop {
+        if let Ok(t) = Trie::open(path) {
+            if t.entries().count() == n {
+                return true;
+            }
+        }
+        if t0.elapsed() > Duration::from_secs(20) {
+            return false;
+        }
+        std::thread::sleep(Duration::from_millis(2));
+    }
+}
+
+fn cmp_entries(got: &[(Key, u32)], want: &BTreeMap<Key, u32>, what: &str, fails: &mut Vec<(String, String)>) {
+    let mut seen = BTreeMap::new();
+    for (k, f) in got {
+        if seen.insert(k.clone(), *f).is_some() {
+            fails.push((format!("{}-duplicated", what), format!("key {} listed twice", fmt_entry(&k.0, &k.1, *f as u64, None))));
+            return;
+        }
+    }
+    for (k, f) in want {
+        match seen.get(k) {
+            None => {
+                fails.push((format!("{}-missing", what), format!("{} absent ({} of {} entries present)", fmt_entry(&k.0, &k.1, *f as u64, None), seen.len(), want.len())));
+                return;
+            }
+            Some(g) if g != f => {
+                fails.push((format!("{}-freq", what), format!("{} has frequency {}", fmt_entry(&k.0, &k.1, *f as u64, None), g)));
+                return;
+            }
+            _ => {}
+        }
+    }
+    for (k, f) in &seen {
+        if !want.contains_key(k) {
+            fails.push((format!("{}-extra", what), format!("unexpected {}", fmt_entry(&k.0, &k.1, *f as u64, None))));
+            return;
+        }
+    }
+}
+
+fn syl_string(s: &[u16]) -> String {
+    s.iter().map(|x| Syllable::try_from(*x).map(|y| y.to_string()).unwrap_or_default()).collect::<Vec<_>>().join(" ")
+}
+
+/// one start-up through the Rust loader; returns the entries seen and persists `learn`
+fn session_rust(target: &Path, learn: &[(Vec<u16>, String, u32)], expect_n: usize, reap: bool) -> Result<Vec<(Key, u32)>, String> {
+    let t2 = target.to_path_buf();
+    let learn = learn.to_vec();
+    catch(move || -> Result<Vec<(Key, u32)>, String> {
+        let mut d = UserDictionaryLoader::new().userphrase_path(&t2).load().map_err(|e| format!("load error {e}"))?;
+        let seen = dict_entries(d.as_ref());
+        if !learn.is_empty() {
+            if !wait_for_file(&t2, expect_n) {
+                return Err("chewing.dat never reached the migrated size".to_string());
+            }
+            let dm = d.as_dict_mut().ok_or("not mutable")?;
+            if reap {
+                let _ = dm.reopen();
+            }
+            for (syls, phrase, freq) in &learn {
+                let ss: Vec<Syllable> = syls.iter().map(|x| Syllable::try_from(*x).unwrap()).collect();
+                dm.update_phrase(&ss, Phrase::new(phrase.as_str(), *freq), *freq, 1).map_err(|e| format!("update error {e}"))?;
+            }
+            dm.flush().map_err(|e| format!("flush error {e}"))?;
+        }
+        drop(d);
+        Ok(seen)
+    })
+    .unwrap_or_else(|p| Err(format!("panic: {p}")))
+}
+
+/// one start-up through chewing_new2; learning through chewing_userphrase_add
+fn session_capi(target: &Path, learn: &[(Vec<u16>, String, u32)], expect_n: usize) -> Result<Vec<(Key, u32)>, String> {
+    use chewing_capi::setup::{chewing_delete, chewing_new2};
+    use chewing_capi::userphrase::{chewing_userphrase_add, chewing_userphrase_enumerate, chewing_userphrase_get, chewing_userphrase_has_next};
+    use std::ffi::{CStr, CString};
+    let sys = CString::new("/repo/tests/data").unwrap();
+    let user = CString::new(target.to_str().unwrap()).unwrap();
+    let mut seen = vec![];
+    unsafe {
+        let ctx = chewing_new2(sys.as_ptr(), user.as_ptr(), None, std::ptr::null_mut());
+        if ctx.is_null() {
+            return Err("chewing_new2 returned NULL".to_string());
+        }
+        chewing_userphrase_enumerate(ctx);
+        loop {
+            let (mut pl, mut bl) = (0u32, 0u32);
+            if chewing_userphrase_has_next(ctx, &mut pl, &mut bl) != 1 {
+                break;
+            }
+            let mut pb = vec![0u8; pl as usize + 1];
+            let mut bb = vec![0u8; bl as usize + 1];
+            if chewing_userphrase_get(ctx, pb.as_mut_ptr() as *mut _, pb.len() as u32, bb.as_mut_ptr() as *mut _, bb.len() as u32) != 0 {
+                break;
+            }
+            let p = CStr::from_ptr(pb.as_ptr() as *const _).to_bytes().to_vec();
+            let b = CStr::from_ptr(bb.as_ptr() as *const _).to_str().unwrap_or("").to_string();
+            let syls: Vec<u16> = b.split(' ').filter(|x| !x.is_empty()).map(|x| x.parse::<Syllable>().map(|s| s.to_u16()).unwrap_or(0)).collect();
+            seen.push(((syls, p), 0u32));
+        }
+        if !learn.is_empty() {
+            if !wait_for_file(target, expect_n) {
+                chewing_delete(ctx);
+                return Err("chewing.dat never reached the migrated size".to_string());
+            }
+            for (syls, phrase, _) in learn {
+                let p = CString::new(phrase.as_str()).unwrap();
+                let b = CString::new(syl_string(syls)).unwrap();
+                chewing_userphrase_add(ctx, p.as_ptr(), b.as_ptr());
+            }
+        }
+        chewing_delete(ctx);
+    }
+    seen.sort();
+    Ok(seen)
+}
+
+fn describe_store(st: &Store) -> String {
+    let kind = match st.fmt {
+        Format::Bin => 'b',
+        Format::Text => 't',
+        Format::SqliteV1 => '1',
+        Format::SqliteV2 => '2',
+    };
+    let mut s = emit_p(0, kind, st.lifetime, &st.recs);
+    s.truncate(4000);
+    s
+}
+
+/// run one generated history; returns (oracle, detail) failures
+fn run_history(st: &Store) -> Vec<(String, String)> {
+    let mut fails = vec![];
+    let dir = scratch_dir();
+    write_store(&dir, st);
+    let target = dir.join("chewing.dat");
+    let legacy0 = legacy_snapshot(&dir, st.fmt);
+    let mut want = expected_entries(st);
+    let mut first = true;
+    let mut sessions: Vec<Vec<(Vec<u16>, String, u32)>> = st.learn.clone();
+    sessions.push(vec![]); // a final start-up without learning
+    sessions.push(vec![]);
+    for (si, learn) in sessions.iter().enumerate() {
+        let n_before = want.len();
+        let r = if st.via_capi { session_capi(&target, learn, n_before) } else { session_rust(&target, learn, n_before, si % 2 == 0) };
+        match r {
+            Err(e) => {
+                fails.push((if first { "migration-failed".to_string() } else { "restart-failed".to_string() }, e));
+                break;
+            }
+            Ok(seen) => {
+                let what = if first { "migration" } else { "restart" };
+                if st.via_capi {
+                    // the C API shows phrase and reading only
+                    let w0: BTreeMap<Key, u32> = want.keys().map(|k| (k.clone(), 0)).collect();
+                    cmp_entries(&seen, &w0, what, &mut fails);
+                } else {
+                    cmp_entries(&seen, &want, what, &mut fails);
+                }
+            }
+        }
+        if !fails.is_empty() {
+            break;
+        }
+        first = false;
+        for (syls, phrase, freq) in learn {
+            let k = (syls.clone(), phrase.as_bytes().to_vec());
+            if st.via_capi {
+                // frequency chosen by the editor's estimate; migrated entries are relearned only in the Rust flow
+                want.entry(k).or_insert(u32::MAX);
+            } else {
+                want.insert(k, *freq);
+            }
+        }
+        if st.via_capi {
+            // read the frequencies back from the file: migrated ones must be unchanged
+            if let Ok(t) = Trie::open(&target) {
+                let file = dict_entries(&t);
+                let mut w2 = want.clone();
+                for (k, f) in &file {
+                    if w2.get(k) == Some(&u32::MAX) {
+                        w2.insert(k.clone(), *f);
+                    }
+                }
+                cmp_entries(&file, &w2, "file", &mut fails);
+                want = w2;
+            }
+        }
+        let legacy = legacy_snapshot(&dir, st.fmt);
+        if legacy != legacy0 {
+            fails.push(("legacy-store-changed".to_string(), format!("after start-up {}: {} rows/bytes before, {} after", si + 1, legacy0.len(), legacy.len())));
+            break;
+        }
+    }
+    let _ = std::fs::remove_dir_all(&dir);
+    fails
+}
+
+fn oracle(tier: &str, out: &str) -> i32 {
+    let n = if tier == "thorough" { 1600 } else { 160 };
+    let mut failures = vec![];
+    let mut by_fmt: BTreeMap<String, usize> = BTreeMap::new();
+    let mut hist: BTreeMap<usize, usize> = BTreeMap::new();
+    let mut nontrivial = 0usize;
+    let mut records = 0usize;
+    let mut startups = 0usize;
+    // corpus first: stores that failed once
+    let mut corpus_fail = vec![];
+    if let Ok(rd) = std::fs::read_dir("/verif/corpus") {
+        let mut files: Vec<_> = rd.flatten().map(|e| e.path()).filter(|p| p.file_name().unwrap().to_string_lossy().starts_with("C19-")).collect();
+        files.sort();
+        for f in files {
+            let txt = std::fs::read_to_string(&f).unwrap_or_default();
+            let get = |key: &str| -> Option<String> {
+                let k = format!("\"{}\": \"", key);
+                let i = txt.find(&k)? + k.len();
+                let j = txt[i..].find('"')? + i;
+                Some(txt[i..j].to_string())
+            };
+            if let (Some(input), Some(expect)) = (get("input"), get("expect")) {
+                let got = migrate_line(&unhex(&input));
+                startups += 1;
+                if got != expect {
+                    corpus_fail.push((f.display().to_string(), input, got, expect));
+                }
+            }
+        }
+    }
+    for i in 0..n {
+        let st = gen_history(tier, i);
+        *by_fmt.entry(format!("{:?}{}", st.fmt, if st.via_capi { "-capi" } else { "" })).or_insert(0) += 1;
+        let bucket = match st.recs.len() {
+            0 => 0,
+            1..=10 => 10,
+            11..=50 => 50,
+            51..=500 => 500,
+            _ => 2000,
+        };
+        *hist.entry(bucket).or_insert(0) += 1;
+        records += st.recs.len();
+        startups += st.learn.len() + 2;
+        if st.recs.iter().any(|r| !r.dead()) && st.learn.iter().any(|l| !l.is_empty()) {
+            nontrivial += 1;
+        }
+        let fails = run_history(&st);
+        for (o, d) in fails {
+            failures.push((o, i, describe_store(&st), d));
+        }
+    }
+    let mut j = String::new();
+    let _ = write!(
+        j,
+        "{{\"evaluations\":{},\"histories\":{},\"records\":{},\"nontrivial\":{},\"by_format\":{{{}}},\"records_histogram\":{{{}}},\"failures\":[",
+        startups,
+        n,
+        records,
+        nontrivial,
+        by_fmt.iter().map(|(k, v)| format!("{}:{}", json_str(k), v)).collect::<Vec<_>>().join(","),
+        hist.iter().map(|(k, v)| format!("\"<={}\":{}", k, v)).collect::<Vec<_>>().join(",")
+    );
+    let mut firstf = true;
+    for (f, input, got, expect) in &corpus_fail {
+        if !firstf {
+            j.push(',');
+        }
+        firstf = false;
+        let _ = write!(
+            j,
+            "{{\"oracle\":\"migration-incomplete\",\"replay\":[\"migrate\",{}],\"input\":{},\"detail\":{}}}",
+            json_str(input),
+            json_str(f),
+            json_str(&format!("got {} expected {}", got, expect))
+        );
+    }
+    for (o, i, store, d) in failures.iter().take(20) {
+        if !firstf {
+            j.push(',');
+        }
+        firstf = false;
+        let _ = write!(
+            j,
+            "{{\"oracle\":{},\"replay\":[\"store\",{},\"{}\"],\"input\":{},\"detail\":{}}}",
+            json_str(o),
+            json_str(tier),
+            i,
+            json_str(store),
+            json_str(d)
+        );
+    }
+    j.push_str("]}");
+    std::fs::write(out, j).expect("write json");
+    if failures.is_empty() && corpus_fail.is_empty() { 0 } else { 1 }
+}
+
 // ------------------------------------------------------------------ replay
 
 fn replay(args: &[String]) -> i32 {
@@ -735,8 +1281,17 @@ fn replay(args: &[String]) -> i32 {
             println!("{}", l);
             if l.contains("panic") { 1 } else { 0 }
         }
+        Some("store") => {
+            let st = gen_history(&args[1], args[2].parse().unwrap());
+            println!("{}", describe_store(&st));
+            let fails = run_history(&st);
+            for (o, d) in &fails {
+                println!("FAIL {} {}", o, d);
+            }
+            if fails.is_empty() { 0 } else { 1 }
+        }
         _ => {
-            eprintln!("usage: c19 replay load|migrate <hex>");
+            eprintln!("usage: c19 replay load|migrate <hex> | store <tier> <index>");
             2
         }
     }
@@ -747,6 +1302,7 @@ fn main() {
     let rc = match args.first().map(|s| s.as_str()) {
         Some("views") => views(&args[1], &args[2], &args[3]),
         Some("corrupt") => corrupt(&args[1], &args[2]),
+        Some("oracle") => oracle(&args[1], &args[2]),
         Some("worker") => worker(&args[1], args[2].parse().unwrap()),
         Some("replay") => replay(&args[1..]),
         _ => {
